@@ -1,6 +1,8 @@
 package main
 
 import (
+	"math"
+	"os"
 	"fmt"
 	"go/types"
 
@@ -25,6 +27,8 @@ type onceObj struct {
 	state int // 0 new, 1 running, 2 done
 	vc    []int
 }
+
+var optrace = os.Getenv("GOSYM_OPTRACE") != ""
 
 type timerObj struct {
 	dur     int64 // duration in ns when known (0 = unknown)
@@ -457,9 +461,12 @@ func (w *World) execSelect(th *Thread, fr *frame, in *ssa.Select) {
 
 // deadline of a timer in virtual time (saturating).
 func (t *timerObj) deadline() int64 {
+	if t.dur >= 1<<61 { // "when nothing else can happen any more" (WaitQuiescent): after every real timer
+		return math.MaxInt64
+	}
 	d := t.armed + t.dur
-	if d < t.armed || t.dur >= 1<<61 {
-		return 1 << 62
+	if d < t.armed || d > math.MaxInt64-1 {
+		return math.MaxInt64 - 1
 	}
 	return d
 }
@@ -482,6 +489,9 @@ func (w *World) liveTimers() []*timerObj {
 
 func (w *World) fireTimer(t *timerObj) {
 	t.fired = true
+	if optrace {
+		w.log = append(w.log, fmt.Sprintf("fire timer #%d %s dur=%dms armed=%dms now=%dms", t.id, t.desc, t.dur/1e6, t.armed/1e6, w.vtime/1e6))
+	}
 	if t.ch != nil && len(t.ch.buf) < t.ch.cap {
 		t.ch.buf = append(t.ch.buf, zero(t.ch.et))
 		t.ch.bufVC = append(t.ch.bufVC, nil)
@@ -653,7 +663,7 @@ func (w *World) schedule(main *Thread) {
 					}
 				}
 				k := w.choose(len(first), DSched)
-				if min > w.vtime {
+				if min > w.vtime && min < math.MaxInt64-1 {
 					w.vtime = min
 				}
 				w.fireTimer(first[k])
@@ -731,6 +741,13 @@ func (w *World) schedule(main *Thread) {
 				w.threadCrashed(o.t)
 			}
 		case *Thread:
+			if optrace && o.pending != nil {
+				loc := ""
+				if fr := o.top(); fr != nil {
+					loc = fr.fn.String() + fr.posString(w.eng)
+				}
+				w.log = append(w.log, fmt.Sprintf("T%d %s: %s at %s", o.id, o.name, o.pending.desc, loc))
+			}
 			if w.eng.cfg.SleepSets {
 				ns := map[*Thread]bool{}
 				for u := range sleep {
